@@ -139,6 +139,7 @@ func randomConcOps(r *rand.Rand, init concState, n int) [][]string {
 }
 
 var stuckOnce bool
+var byHandlerSeq int64
 
 func runConcRound(tw *traceWriter, r *rand.Rand, round int, servers, nops int) {
 	router := pick(r, []string{"curly", "jsr311"})
@@ -463,7 +464,8 @@ func runConcPair(tw *traceWriter, pair []string, rep int) {
 		// an administrative endpoint: its handler changes the container it is served by
 		adm := new(restful.WebService).Path("/adm")
 		adm.Route(adm.GET("").To(func(req *restful.Request, resp *restful.Response) {
-			nws := (&regService{root: "/byhandler", routes: []string{""}}).build()
+			// (a root of its own per invocation: adding a root path twice is a documented exit of the library)
+			nws := (&regService{root: fmt.Sprintf("/byhandler%d", atomic.AddInt64(&byHandlerSeq, 1)), routes: []string{""}}).build()
 			c.Add(nws)
 			c.Remove(nws)
 			resp.Write([]byte("changed"))
